@@ -968,3 +968,45 @@ def custom_interaction_matrix(ctx) -> None:
     ctx.ob("INTERACT", "configured matrix stored", g.loc(), bad is None,
            "full_interaction_matrix = config.interaction_matrix.as_tensor() (size checked) when configured, None otherwise"
            if bad is None else f"PulserData.__init__: {bad}: the user's interaction matrix is ignored or invented")
+
+
+def make_h_binding(ctx) -> None:
+    """Every (re)build of the MPO Hamiltonian in the emu-mps drivers is for the run's own interaction kind and level count:
+    each `make_H` call binds hamiltonian_type to `self.hamiltonian_type` and dim to `self.dim` (both copied from the
+    sequence data by the constructor) and the interaction matrix to the one just fetched — never a callee default."""
+    from ..interp import field_defs
+    prog = ctx.prog
+    root = prog.cls(IMPL + ".MPSBackendImpl")
+    MH = "emu_mps.hamiltonian.make_H"
+    n = 0
+    bad = None
+    for K in [k for k in prog.classes.values() if k is root or root in prog.mro(k)]:
+        for m in K.methods.values():
+            if not any(isinstance(x, ast.Call) and util.text(x.func).endswith("make_H") for x in util.walk_own(m.node)):
+                continue
+            for p in Interp(prog, K, inline=lambda c, r, d: False, loop_iters=(1,)).run(m):
+                for e in p.events:
+                    if e.kind != "call" or e.name != MH:
+                        continue
+                    n += 1
+                    got = dict(e.kw)
+                    got.update(e.args if isinstance(e.args, dict) else {})
+                    for name, fld in (("hamiltonian_type", "hamiltonian_type"), ("dim", "dim")):
+                        v = strip_typed(got[name]) if got.get(name) is not None else None
+                        if v != ("attr", SELF, fld):
+                            bad = f"{m.qualname.split('.')[-1]}: make_H({name}={show(v)[:40] if v is not None else '<callee default>'})"
+                    im = strip_typed(got["interaction_matrix"]) if got.get("interaction_matrix") is not None else None
+                    cur = strip_typed(p.heap.get((SELF, "current_interaction_matrix"), ("attr", SELF, "current_interaction_matrix")))
+                    if im is None or (im != ("attr", SELF, "current_interaction_matrix") and im != cur):
+                        bad = f"{m.qualname.split('.')[-1]}: make_H(interaction_matrix={show(im)[:40] if im else '?'}) is not the matrix just stored as current"
+    ctx.require(n >= 2, f"HAM-mps: {n} make_H call events in the emu-mps drivers (2 confirmed by hand: init_hamiltonian, timestep_complete)")
+    fd = field_defs(prog, root)
+    pd = ("param", root.methods["__init__"].qualname, "pulser_data")
+    for fld in ("hamiltonian_type", "dim"):
+        defs = [strip_typed(v) for v, ev in fd.get(fld, []) if ev.func.name == "__init__"]
+        if bad is None and defs != [("attr", pd, fld)]:
+            bad = f"self.{fld} = {[show(d)[:40] for d in defs]}, not pulser_data.{fld}"
+    ctx.ob("HAM-mps", "every make_H is for the run's interaction kind and level count", f"{root.module.relpath}:{root.node.lineno}", bad is None,
+           f"{n} make_H call(s): hamiltonian_type=self.hamiltonian_type, dim=self.dim (from the sequence data), matrix = the current one"
+           if bad is None else
+           f"{bad}: after this rebuild (e.g. when the SLM mask ends) the run continues with another Hamiltonian than the sequence's")
